@@ -46,7 +46,21 @@ def export_job(p: Dict[str, Any]) -> Dict[str, Any]:
     except Exception as e:  # noqa: BLE001
         return {"status": "build_error", "type": type(e).__name__, "msg": str(e)[:300]}
     try:
-        model = corpus.export(tp, fn, **overrides)
+        if p.get("transform"):
+            from mc import transforms
+            import jax
+            from jax2onnx import to_onnx
+            _s, meta, _v = corpus.input_meta(tp)
+            if not transforms.is_unit(tp, meta):
+                return {"status": "not_a_unit"}
+            fn_t, meta_t = transforms.apply(fn, meta, p["transform"])
+            kw = corpus.export_kwargs(tp)
+            for k in ("input_names", "output_names", "inputs_as_nchw", "outputs_as_nchw", "input_params"):
+                kw.pop(k, None)
+            kw.update(overrides)
+            model = to_onnx(fn_t, [jax.ShapeDtypeStruct(sh, dt) for sh, dt in meta_t], **kw)
+        else:
+            model = corpus.export(tp, fn, **overrides)
     except Exception as e:  # noqa: BLE001
         return {"status": "raise", "type": type(e).__name__, "msg": str(e)[:500],
                 "tb": traceback.format_exc()[-1500:]}
@@ -62,7 +76,7 @@ def export_job(p: Dict[str, Any]) -> Dict[str, Any]:
            "digest": __import__("hashlib").sha256(data).hexdigest()[:16],
            "double": bool(overrides.get("enable_double_precision", corpus.double(tp)))}
     if p.get("out_dir"):
-        path = os.path.join(p["out_dir"], p.get("name") or (_safe(p["pid"]) + ".onnx"))
+        path = os.path.join(p["out_dir"], p.get("name") or (_safe(p["pid"] + "|" + str(p.get("transform"))) + ".onnx"))
         with open(path, "wb") as f:
             f.write(data)
         out["path"] = path
@@ -378,7 +392,7 @@ def _prepare(p: Dict[str, Any]) -> Dict[str, Any]:
     """Per-process cache of everything that does not depend on the input pattern."""
     import onnx
     from mc import corpus
-    key = p["pid"] + "|" + p["path"] + "|" + str(sorted((p.get("binding") or {}).items()))
+    key = p["pid"] + "|" + p["path"] + "|" + str(p.get("transform"))
     c = _PROG_CACHE.get(key)
     if c is not None:
         return c
@@ -398,12 +412,19 @@ def _prepare(p: Dict[str, Any]) -> Dict[str, Any]:
         c["skipped"] = f"build_error {type(e).__name__}"
         return c
     specs, meta, _tc = corpus.input_meta(tp)
+    if p.get("transform"):
+        from mc import transforms
+        try:
+            fn, meta = transforms.apply(fn, meta, p["transform"])
+        except Exception as e:  # noqa: BLE001
+            c["skipped"] = f"transform not applicable: {type(e).__name__}"
+            return c
     c.update(fn=fn, meta=meta, dbl=corpus.double(tp))
     if not corpus.random_free(fn, meta, tp):
         c["skipped"] = "random"
         return c
     c["m_in"], c["m_out"] = model_io(c["model"])
-    c["binding"] = p.get("binding") or default_binding(corpus.symbols(meta))
+    c["binding"] = default_binding(corpus.symbols(meta))
     c["pointwise"], c["all_f64"] = _analyse(fn, tp, meta, c["binding"], c["dbl"])
     c["sess"] = make_session(data)
     from mc import gspace as G
@@ -430,7 +451,7 @@ def numeric_job(p: Dict[str, Any]) -> Dict[str, Any]:
         out["skipped"] = c["skipped"]
         return out
     tp, model, fn, meta, dbl = c["tp"], c["model"], c["fn"], c["meta"], c["dbl"]
-    m_in, binding, pointwise = c["m_in"], c["binding"], c["pointwise"]
+    m_in, binding, pointwise = c["m_in"], (p.get("binding") or c["binding"]), c["pointwise"]
     ref = c["ref"]
     double_budget = dbl and c["all_f64"]
     if p.get("require_all_f64") and not double_budget:
